@@ -416,17 +416,30 @@ def _as_obj(a):
 class PA:
     """array of fixed capacity `data.shape` (object array of z3 terms / python values) whose extent along an axis is either
     the capacity (`ext[k] is None`, a dense axis) or a symbolic integer `ext[k]` in 0..capacity (entries beyond it are
-    padding and carry no meaning). kind: 'b' bool, 'i' int, 'f' real."""
+    padding and carry no meaning). kind: 'b' bool, 'i' int, 'f' real.
+    VIEWS: `data` is a numpy object array, and reshape / ravel / .T / basic indexing hand numpy's own result on (a view of the
+    same buffer whenever numpy returns a view, a copy when numpy copies); every assignment writes INTO `data`, so a write
+    through a view is seen by the base array exactly as in numpy."""
     __array_ufunc__ = None
     __array_priority__ = 1000
     __hash__ = None
 
-    def __init__(self, data, kind, ext=None, ecap=None):
+    def __init__(self, data, kind, ext=None, ecap=None, meta=None):
         self.data = data
         self.kind = kind
         self.ext = tuple(ext) if ext is not None else (None,) * data.ndim
-        self.ecap = ecap              # static upper bound of the (non-negative) integer entries, where known
-        self.sizes = False            # entries were assigned from sizes (SInt): scalar reads give an SInt again
+        # [static upper bound of the (non-negative) integer entries where known, entries were assigned from sizes (scalar reads
+        # give an SInt again)] — shared between an array and its views
+        self._m = meta if meta is not None else [ecap, False]
+        self.lit = False              # wraps a concrete numpy array handed in by the caller (connectivity): usable as a plain index
+
+    ecap = property(lambda self: self._m[0], lambda self, v: self._m.__setitem__(0, v))
+    sizes = property(lambda self: self._m[1], lambda self, v: self._m.__setitem__(1, v))
+
+    def _view(self, data, ext=None):
+        r = PA(data, self.kind, ext, meta=self._m)
+        r.lit = self.lit
+        return r
 
     # -- shape
     @property
@@ -462,7 +475,22 @@ class PA:
         return self.data.shape[0]
 
     def __iter__(self):
-        return iter([self[i] for i in range(len(self))])
+        if self.ext[0] is None:
+            return iter([self[i] for i in range(self.data.shape[0])])
+        if self.ndim != 1:
+            raise Unsupported('iteration over a %d-d array with a symbolic number of rows' % self.ndim)
+
+        def gen():
+            # the loop runs `length` times: the exploration forks on "one more entry"
+            L = self.length()
+            for p in range(self.data.shape[0]):
+                c = i_lt(p, L)
+                if isz(c):
+                    c = bool(px.SymBool(c))
+                if not c:
+                    return
+                yield self._scalar(self.data[p])
+        return gen()
 
     def __repr__(self):
         return 'PA(%s, cap=%s, ext=%s)' % (self.kind, self.data.shape, self.ext)
@@ -472,7 +500,13 @@ class PA:
             raise Unsupported('%s of an array with a symbolic extent' % what)
 
     def copy(self):
-        return PA(self.data.copy(), self.kind, self.ext, self.ecap)
+        r = PA(self.data.copy(), self.kind, self.ext, self.ecap)
+        r.sizes = self.sizes
+        return r
+
+    def to_numpy(self):
+        self._need_dense('conversion to numpy')
+        return onp.array(self.data.tolist(), dtype=self.dtype).reshape(self.data.shape)
 
     def item(self):
         self._need_dense('item()')
@@ -490,19 +524,24 @@ class PA:
     def reshape(self, *shape):
         if len(shape) == 1 and isinstance(shape[0], (tuple, list)):
             shape = tuple(shape[0])
-        self._need_dense('reshape')
-        return PA(self.data.reshape(shape).copy(), self.kind, None, self.ecap)
+        shape = tuple(int(x) for x in shape)
+        if self.dense:
+            return self._view(self.data.reshape(shape))
+        if self.ext[0] is not None and all(e is None for e in self.ext[1:]) and shape and shape[0] in (-1, self.data.shape[0]) and -1 not in shape[1:]:
+            # the axis of symbolic extent is kept, trailing dense axes are regrouped
+            return self._view(self.data.reshape((self.data.shape[0],) + shape[1:]), (self.ext[0],) + (None,) * (len(shape) - 1))
+        raise Unsupported('reshape %s -> %s of an array with a symbolic extent' % (self.data.shape, shape))
 
     def ravel(self):
         if self.dense or self.ndim == 1:
-            return PA(self.data.reshape(-1).copy(), self.kind, self.ext if self.ndim == 1 else None, self.ecap)
+            return self._view(self.data.ravel(), self.ext if self.ndim == 1 else None)
         if self.ndim == 2:
             return _block_ravel(self)
         raise Unsupported('ravel of a %d-d array with symbolic extents' % self.ndim)
 
     @property
     def T(self):
-        return PA(self.data.T.copy(), self.kind, tuple(reversed(self.ext)), self.ecap)
+        return self._view(self.data.T, tuple(reversed(self.ext)))
 
     def __invert__(self):
         if self.kind != 'b':
@@ -523,6 +562,35 @@ class PA:
         return PA(o, 'i', self.ext, None if (self.ecap is None or c < 0) else self.ecap * int(c))
     __rmul__ = __mul__
 
+    # -- elementwise integer arithmetic / comparisons with numpy broadcasting
+    def __add__(self, o):
+        return _ew2(self, o, i_add, 'i', lambda x, y: None if (x is None or y is None) else x + y)
+    __radd__ = __add__
+
+    def __sub__(self, o):
+        return _ew2(self, o, i_sub, 'i', lambda x, y: x)
+
+    def __rsub__(self, o):
+        return _ew2(o, self, i_sub, 'i', lambda x, y: x)
+
+    def __lt__(self, o):
+        return _ew2(self, o, i_lt, 'b')
+
+    def __le__(self, o):
+        return _ew2(self, o, i_le, 'b')
+
+    def __gt__(self, o):
+        return _ew2(o, self, i_lt, 'b')
+
+    def __ge__(self, o):
+        return _ew2(o, self, i_le, 'b')
+
+    def __eq__(self, o):
+        return _ew2(self, o, b_iff if self.kind == 'b' else i_eq, 'b')
+
+    def __ne__(self, o):
+        return ~(self == o)
+
     def any(self, axis=None):
         return ONP().any(self, axis)
 
@@ -534,10 +602,11 @@ class PA:
 
     def sort(self):
         r = _sort(self)
-        self.data = r.data
+        self.data[...] = r.data
 
     def flatten(self):
-        return self.ravel()
+        r = self.ravel()
+        return r.copy()
 
     def tobytes(self, order='C'):
         """a hashable stand-in for the byte string of the array (used as a dict key by callers): see PAKey"""
@@ -559,40 +628,52 @@ class PA:
 
     # -- indexing
     def __getitem__(self, key):
+        key = _norm_key(key)
         if isinstance(key, PA):
             if key.kind == 'b':
+                if key.ndim == 1 and self.ndim > 1:
+                    return _compress_rows(self, key)
                 return _compress(self, key)
             if key.kind == 'i':
-                return _gather(self, key)
+                if self.ndim == 1 and key.ndim == 1:
+                    return _gather(self, key)
+                return _gather_nd(self, key)
             raise IndexError('arrays used as indices must be of integer (or boolean) type')
         if isinstance(key, tuple) and any(isinstance(k, PA) for k in key):
             pas = [i for i, k in enumerate(key) if isinstance(k, PA)]
-            rest = [k for k in key if not isinstance(k, PA)]
-            if pas != [0] or key[0].kind != 'i' or not all(isinstance(k, (int, onp.integer)) for k in rest):
-                raise Unsupported('indexing with key %r' % (key,))
-            self._need_dense('advanced indexing')
-            col = self.data[(slice(None),) + tuple(int(k) for k in rest)]
-            return _gather(PA(col.copy(), self.kind, None, self.ecap), key[0])
+            rest = tuple(k for k in key if not isinstance(k, PA))
+            full = lambda k: isinstance(k, slice) and k == slice(None)
+            if pas == [0] and key[0].kind == 'i' and rest and all(isinstance(k, (int, onp.integer)) for k in rest):
+                self._need_dense('advanced indexing')
+                col = self.data[(slice(None),) + tuple(int(k) for k in rest)]
+                return _gather(PA(col.copy(), self.kind, None, self.ecap), key[0]) if key[0].ndim == 1 else _gather_nd(PA(col.copy(), self.kind, None, self.ecap), key[0])
+            if pas == [0] and key[0].kind == 'i' and all(full(k) for k in rest):
+                return _gather_nd(self, key[0])
+            if pas == [0] and key[0].kind == 'b' and key[0].ndim == 1 and all(k is None or full(k) for k in rest):
+                r = _compress_rows(self, key[0]) if self.ndim > 1 else _compress(self, key[0])
+                d = r.data[(slice(None),) + rest]
+                return PA(d, r.kind, (r.ext[0],) + (None,) * (d.ndim - 1), r.ecap)
+            raise Unsupported('indexing with key %r' % (key,))
         if isinstance(key, slice) and self.ndim == 1 and not self.dense:
             return _slice_get(self, key)
         key = _concrete_key(key)
         self._need_dense('basic/fancy indexing')
         r = self.data[key]
         if isinstance(r, onp.ndarray):
-            return PA(r.copy(), self.kind, None, self.ecap)
+            return self._view(r)                  # numpy's result: a view for basic indexing, a copy for fancy indexing
         return self._scalar(r)
 
     def __setitem__(self, key, value):
+        key = _norm_key(key)
         if isinstance(key, PA):
             if key.kind == 'i':
                 if self.ndim != 1:
                     raise Unsupported('index-array assignment on a %d-d array' % self.ndim)
-                self._need_dense('scatter target')
-                _scatter(self.data, key, value, self)
+                _scatter(self.data, key, value, self, self.length())
                 return
             if key.kind == 'b':
                 r = _masked_set(self, key, value)
-                self.data = r.data
+                self.data[...] = r.data
                 return
         if isinstance(key, slice) and self.ndim == 1 and (isinstance(key.start, SInt) or isinstance(key.stop, SInt) or not self.dense):
             _slice_assign(self, key, value)
@@ -629,6 +710,66 @@ class PA:
             elif self.kind == 'i' and isinstance(value, (int, onp.integer)) and self.ecap is not None:
                 self.ecap = max(self.ecap, int(value)) if value >= 0 else None
             self.data[key] = value
+
+
+def _norm_key(key):
+    """index components that are concrete by construction become plain numpy / python indices: a `lit` array (the caller's
+    connectivity), a symbolic size used as an integer index (the exploration forks over its values)"""
+    def one(k):
+        if isinstance(k, PA) and k.lit and k.dense:
+            return k.to_numpy()
+        if isinstance(k, SInt):
+            return int(k)
+        return k
+    if isinstance(key, tuple):
+        return tuple(one(k) for k in key)
+    return one(key)
+
+
+def _operand(x):
+    if isinstance(x, PA):
+        return x.data, x.ext, x.ecap
+    if isinstance(x, SInt):
+        d = onp.empty((), dtype=object)
+        d[()] = x.z
+        return d, (), x.cap
+    if isinstance(x, (bool, onp.bool_)):
+        d = onp.empty((), dtype=object)
+        d[()] = bool(x)
+        return d, (), None
+    if isinstance(x, (int, onp.integer)):
+        d = onp.empty((), dtype=object)
+        d[()] = int(x)
+        return d, (), (int(x) if x >= 0 else None)
+    a = onp.asarray(x)
+    if a.dtype == object or a.dtype.kind not in 'iub':
+        raise Unsupported('elementwise operation with %r' % (x,))
+    return _as_obj(a), (None,) * a.ndim, (int(a.max()) if (a.size and a.min() >= 0) else None)
+
+
+def _ew2(a, b, f, kind, ecapf=None):
+    """elementwise f(a, b) with numpy broadcasting; an axis of symbolic extent keeps its extent"""
+    da, ea, ca = _operand(a)
+    db, eb, cb = _operand(b)
+    A, B = onp.broadcast_arrays(da, db)
+    out = onp.empty(A.shape, dtype=object)
+    of, af, bf = out.reshape(-1), A.reshape(-1), B.reshape(-1)
+    for i in range(of.size):
+        of[i] = f(af[i], bf[i])
+    nd = out.ndim
+    ext = []
+    for k in range(nd):
+        cands = []
+        for d, e in ((da, ea), (db, eb)):
+            j = k - (nd - d.ndim)
+            if j >= 0 and e[j] is not None:
+                if d.shape[j] != out.shape[k]:
+                    raise Unsupported('broadcasting along an axis of symbolic extent')
+                cands.append(e[j])
+        if len(cands) == 2 and not (cands[0] is cands[1] or _same(cands[0], cands[1])):
+            _require(i_eq(cands[0], cands[1]), 'operands could not be broadcast together (extents of axis %d)' % k)
+        ext.append(cands[0] if cands else None)
+    return PA(out, kind, ext, ecapf(ca, cb) if (ecapf and kind == 'i') else None)
 
 
 def _term_id(x):
@@ -757,24 +898,93 @@ def _len_ok(value, L, what):
         _require(b_or(i_eq(Lv, L), i_eq(Lv, 1)), what)
 
 
-def _scatter(view, idx, value, owner):
-    """view[idx] = value (1-d view of concrete length, integer index array of possibly symbolic length): later entries
-    win, as in numpy"""
-    n, ni = view.shape[0], idx.data.shape[0]
-    L = idx.length()
-    _len_ok(value, L, 'shape mismatch: value array could not be broadcast to the indexing result')
-    effs = [_eff_index(idx.data[p], n) for p in range(ni)]
-    _require(b_and(*[b_implies(i_lt(p, L), b_and(i_le(0, effs[p]), i_lt(effs[p], n))) for p in range(ni)]),
+def _scatter(view, idx, value, owner, Ltarget=None):
+    """view[idx] = value (1-d view; integer index array of any dimension whose leading axis may have a symbolic extent): later
+    entries (C order) win, as in numpy. Ltarget: valid length of the target (default: its capacity)."""
+    n = view.shape[0]
+    Lt = n if Ltarget is None else Ltarget
+    if idx.ndim == 1:
+        ni = idx.data.shape[0]
+        L = idx.length()
+        _len_ok(value, L, 'shape mismatch: value array could not be broadcast to the indexing result')
+        valid = [i_lt(p, L) for p in range(ni)]
+        raws = list(idx.data)
+        vals = [_value_at(value, p, L, owner.kind)[0] for p in range(ni)]
+    else:
+        if any(e is not None for e in idx.ext[1:]):
+            raise Unsupported('index array with a symbolic extent along a trailing axis')
+        rows = idx.data.shape[0]
+        per = int(onp.prod(idx.data.shape[1:]))
+        L = idx.length()
+        valid = [i_lt(r, L) for r in range(rows) for _ in range(per)]
+        raws = list(idx.data.reshape(-1))
+        if isinstance(value, PA):
+            if value.data.shape[1:] != idx.data.shape[1:] or value.ndim != idx.ndim or any(e is not None for e in value.ext[1:]):
+                raise ValueError('shape mismatch: value array of shape %s could not be broadcast to indexing result of shape %s' % (value.data.shape, idx.data.shape))
+            if not _same(value.length(), L):
+                _require(i_eq(value.length(), L), 'shape mismatch: value array could not be broadcast to the indexing result')
+            vr = value.data.shape[0]
+            vflat = value.data.reshape(vr, per) if vr else None
+            vals = [(vflat[r, k] if r < vr else KIND_DEFAULT[owner.kind]) for r in range(rows) for k in range(per)]
+        else:
+            v0 = _value_at(value, 0, L, owner.kind)[0]
+            vals = [v0] * (rows * per)
+    effs = [_eff_index(x, Lt) for x in raws]
+    _require(b_and(*[b_implies(valid[p], b_and(i_le(0, effs[p]), i_lt(effs[p], Lt))) for p in range(len(raws))]),
              'every index of a scatter lies within the target array', IndexError)
-    vals = [_value_at(value, p, L, owner.kind)[0] for p in range(ni)]
     for d in range(n):
         v = view[d]
-        for p in range(ni):
-            v = ite(b_and(i_lt(p, L), i_eq(effs[p], d)), vals[p], v, owner.kind)
+        for p in range(len(raws)):
+            v = ite(b_and(valid[p], i_eq(effs[p], d)), vals[p], v, owner.kind)
         view[d] = v
     if owner.kind == 'i':
         vc = value.ecap if isinstance(value, PA) else (value.cap if isinstance(value, SInt) else (int(value) if isinstance(value, (int, onp.integer)) and value >= 0 else None))
         owner.ecap = None if (owner.ecap is None or vc is None) else max(owner.ecap, vc)
+
+
+def _compress_rows(a, m):
+    """a[m] for a 1-d boolean mask over the first axis of an array with more axes: the selected rows, in order"""
+    a._need_dense('boolean-mask indexing')
+    m._need_dense('boolean mask')
+    n = a.data.shape[0]
+    if m.data.shape != (n,):
+        raise IndexError('boolean index did not match indexed array along dimension 0')
+    mf = list(m.data)
+    pre, total = prefix_counts(mf)
+    tail = a.data.shape[1:]
+    flat = a.data.reshape(n, -1)
+    out = onp.empty(flat.shape, dtype=object)
+    dflt = KIND_DEFAULT[a.kind]
+    for r in range(n):
+        conds = [b_and(mf[i], i_eq(pre[i], r)) for i in range(r, n)]
+        for t in range(flat.shape[1]):
+            out[r, t] = select([(conds[i - r], flat[i, t]) for i in range(r, n)], dflt, a.kind)
+    return PA(out.reshape((n,) + tail), a.kind, (total,) + (None,) * len(tail), a.ecap)
+
+
+def _gather_nd(s, idx):
+    """s[idx] / s[idx, :, ...]: rows of a dense array selected by an integer index array of any dimension (leading axis of
+    possibly symbolic extent)"""
+    s._need_dense('indexed array')
+    if any(e is not None for e in idx.ext[1:]):
+        raise Unsupported('index array with a symbolic extent along a trailing axis')
+    n = s.data.shape[0]
+    tail = s.data.shape[1:]
+    sflat = s.data.reshape(n, -1)
+    L = idx.length()
+    rows = idx.data.shape[0] if idx.ndim else 1
+    iflat = idx.data.reshape(-1)
+    per = iflat.size // rows if rows else 0
+    effs = [_eff_index(x, n) for x in iflat]
+    _require(b_and(*[b_implies(i_lt(p // per, L), b_and(i_le(0, effs[p]), i_lt(effs[p], n))) for p in range(len(effs))]) if per else True,
+             'every index of a gather lies within the indexed array', IndexError)
+    out = onp.empty((iflat.size, sflat.shape[1]), dtype=object)
+    dflt = KIND_DEFAULT[s.kind]
+    for p in range(iflat.size):
+        conds = [i_eq(effs[p], d) for d in range(n)]
+        for t in range(sflat.shape[1]):
+            out[p, t] = select([(conds[d], sflat[d, t]) for d in range(n)], dflt, s.kind)
+    return PA(out.reshape(idx.data.shape + tail), s.kind, idx.ext + (None,) * len(tail), s.ecap)
 
 
 def _masked_set(a, m, value):
@@ -844,7 +1054,7 @@ def _masked_axis_set(a, key, ax, value):
     new = flat.copy()
     for q, c in zip(pos, coord):
         new[q] = ite(m.data[c], val, flat[q], a.kind)
-    a.data = new.reshape(a.data.shape)
+    a.data[...] = new.reshape(a.data.shape)
 
 
 def _slice_assign(a, key, value):
@@ -874,7 +1084,7 @@ def _slice_assign(a, key, value):
         else:
             sel = _value_at(value, 0, cnt, a.kind)[0]
         new[q] = ite(inside, sel, v, a.kind)
-    a.data = new
+    a.data[...] = new
     if a.kind == 'i' and isinstance(value, PA):
         a.ecap = None if (a.ecap is None or value.ecap is None) else max(a.ecap, value.ecap)
 
@@ -1050,21 +1260,96 @@ class ONP:
         cap = n.cap if isinstance(n, SInt) else int(n)
         return _new_1d(n, 'i', lambda i: i, max(cap - 1, 0))
 
+    @staticmethod
+    def _lit(v, dtype):
+        """a concrete integer / boolean array handed in by the caller (the connectivity) as a PA that may be indexed by
+        symbolic masks; used as an index itself it behaves as the plain numpy array"""
+        if isinstance(v, (list, tuple)) and any(isinstance(x, (PA, SInt)) for x in v):
+            raise Unsupported('array() of a list holding symbolic entries')
+        a = onp.asarray(v, dtype=dtype)
+        if a.dtype == object or a.dtype.kind not in 'iub' or a.ndim == 0:
+            return a
+        r = PA(_as_obj(a), _kind_of_dtype(a.dtype), None, (int(a.max()) if (a.size and a.dtype.kind != 'b' and a.min() >= 0) else None))
+        r.lit = True
+        return r
+
     def array(self, v, dtype=None, **k):
         if isinstance(v, PA):
             return v.copy()
-        return onp.array(v, dtype=dtype, **k)
+        return self._lit(v, dtype)
 
     def asarray(self, v, dtype=None, **k):
         if isinstance(v, PA):
             return v
-        return onp.asarray(v, dtype=dtype, **k)
+        return self._lit(v, dtype)
+
+    def atleast_1d(self, v):
+        if isinstance(v, PA):
+            if v.ndim == 0:
+                raise Unsupported('atleast_1d of a 0-d array')
+            return v
+        return onp.atleast_1d(v)
+
+    def flatnonzero(self, a):
+        if not isinstance(a, PA):
+            return onp.flatnonzero(a)
+        a = a.ravel()
+        if a.kind != 'b':
+            a = ~(a == 0)
+        return self.arange(a.data.shape[0])[a]
+
+    def cumsum(self, a, axis=None):
+        if not isinstance(a, PA):
+            return onp.cumsum(a, axis=axis)
+        if a.ndim != 1 or not a.dense or a.kind != 'i':
+            raise Unsupported('cumsum of this array')
+        out, c = onp.empty(a.data.shape, dtype=object), 0
+        for i in range(a.data.shape[0]):
+            c = i_add(c, a.data[i])
+            out[i] = c
+        r = PA(out, 'i', None, None if a.ecap is None else a.ecap * max(a.data.shape[0], 1))
+        r.sizes = a.sizes
+        return r
+
+    def repeat(self, a, n, axis=None):
+        if not isinstance(a, PA):
+            return onp.repeat(a, n, axis=axis)
+        if not isinstance(n, (int, onp.integer)):
+            raise Unsupported('repeat with a symbolic or array count')
+        if axis is None:
+            a, axis = a.ravel(), 0
+        if a.ext[axis] is not None:
+            raise Unsupported('repeat along an axis of symbolic extent')
+        return PA(onp.repeat(a.data, int(n), axis=axis), a.kind, a.ext, a.ecap)
+
+    @staticmethod
+    def _along(a, axis, fn, kind, ecap=None, sizes=False):
+        """reduction of a dense array along one axis by fn(list of entries)"""
+        a._need_dense('reduction along an axis')
+        axis = axis % a.ndim
+        moved = onp.moveaxis(a.data, axis, -1)
+        out = onp.empty(moved.shape[:-1], dtype=object)
+        for I in onp.ndindex(*moved.shape[:-1]):
+            out[I] = fn(list(moved[I]))
+        r = PA(out, kind, None, ecap)
+        r.sizes = sizes
+        return r
 
     def sum(self, a, axis=None):
         if not isinstance(a, PA):
             return onp.sum(a, axis=axis)
-        if axis is not None:
-            raise Unsupported('sum along an axis')
+        if axis is not None and a.ndim > 1:
+            n = a.data.shape[axis % a.ndim]
+            if a.kind == 'b':
+                return self._along(a, axis, count, 'i', n, True)
+            if a.kind == 'i' and a.ecap is not None:
+                def add(xs):
+                    t = 0
+                    for x in xs:
+                        t = i_add(t, x)
+                    return t
+                return self._along(a, axis, add, 'i', a.ecap * n, True)
+            raise Unsupported('sum of a %s array along an axis' % a.kind)
         a._need_dense('sum')
         flat = list(a.data.reshape(-1))
         if a.kind == 'b':
@@ -1098,12 +1383,18 @@ class ONP:
     def any(self, a, axis=None):
         if not isinstance(a, PA):
             return onp.any(a, axis=axis)
+        if axis is not None and a.ndim > 1:
+            nzf = (lambda x: x) if a.kind == 'b' else (lambda x: b_not(i_eq(x, 0)))
+            return self._along(a, axis, lambda xs: b_or(*[nzf(x) for x in xs]), 'b')
         valid, nz = _truth(a)
         return _wrap_bool(b_or(*[b_and(v, x) for v, x in zip(valid, nz)]))
 
     def all(self, a, axis=None):
         if not isinstance(a, PA):
             return onp.all(a, axis=axis)
+        if axis is not None and a.ndim > 1:
+            nzf = (lambda x: x) if a.kind == 'b' else (lambda x: b_not(i_eq(x, 0)))
+            return self._along(a, axis, lambda xs: b_and(*[nzf(x) for x in xs]), 'b')
         valid, nz = _truth(a)
         return _wrap_bool(b_and(*[b_implies(v, x) for v, x in zip(valid, nz)]))
 
@@ -1131,7 +1422,15 @@ class ONP:
         if isinstance(x, SInt):
             return SInt(table_mul(x.z, x.cap, x.z), x.cap * x.cap)
         if isinstance(x, PA):
-            raise Unsupported('square of an array')
+            if x.kind != 'i':
+                raise Unsupported('square of a %s array' % x.kind)
+            o = onp.empty(x.data.shape, dtype=object)
+            of, xf = o.reshape(-1), x.data.reshape(-1)
+            for i in range(xf.size):
+                of[i] = table_mul(xf[i], x.ecap, xf[i])
+            r = PA(o, 'i', x.ext, None if x.ecap is None else x.ecap * x.ecap)
+            r.sizes = x.sizes
+            return r
         return onp.square(x)
 
     def tile(self, a, reps):
@@ -1140,6 +1439,13 @@ class ONP:
         if not isinstance(a, PA):
             a = PA(_as_obj(onp.asarray(a)), _kind_of_dtype(onp.asarray(a).dtype))
         reps = _shape_tuple(reps)
+        if all(isinstance(r, (int, onp.integer)) for r in reps) and not (a.ndim == 1 and len(reps) == 2 and int(reps[1]) == 1):
+            # concrete repetition counts: numpy's tile on the entries; an axis of symbolic extent must not be repeated
+            ext = (None,) * max(len(reps) - a.ndim, 0) + a.ext
+            full = (1,) * max(len(ext) - len(reps), 0) + tuple(int(r) for r in reps)
+            if any(e is not None and r != 1 for e, r in zip(ext, full)):
+                raise Unsupported('tile along an axis of symbolic extent')
+            return PA(onp.tile(a.data, reps), a.kind, ext, a.ecap)
         if a.ndim != 1 or len(reps) != 2 or not (isinstance(reps[1], (int, onp.integer)) and int(reps[1]) == 1):
             raise Unsupported('tile of a %d-d array with reps %r' % (a.ndim, reps))
         m = reps[0]
@@ -1479,19 +1785,29 @@ def goals_roundtrip(G, cfg, orc, dm, ex):
 
 
 def goals_slice(G, cfg, orc, dm, ex):
+    """HISTORY of calls on one DofManager: every component is sliced, then every component is sliced again (so each call is
+    preceded by calls for the same and for the other components); every result must be the unconstrained entries of its
+    component, and the calls must leave the manager's own arrays as they were"""
     nd, symbolic = cfg.ndof, ex.symbolic
     Wu, Wuv = padded_in(ex, 'Wu', nd, orc.nfree, symbolic)
-    for k in range(cfg.dim):
-        r = View(dm.slice_unknowns_with_dof_indices(Wu, (slice(None), k)))
-        fk = [orc.free[n * cfg.dim + k] for n in range(cfg.nN)]
-        rk, nk = prefix_counts(fk)
-        conds = [i_eq(r.n, nk)]
-        for n in range(cfg.nN):
-            d = n * cfg.dim + k
-            for p in range(n + 1):
-                for u in range(d + 1):
-                    conds.append(b_implies(b_and(fk[n], i_eq(rk[n], p), i_eq(orc.rank_free[d], u)), v_eq(r.at(p), Wuv[u])))
-        G('component_slice_is_the_unconstrained_entries_of_the_component_in_node_order', conds)
+    for rnd, gname in ((0, 'component_slice_is_the_unconstrained_entries_of_the_component_in_node_order'),
+                       (1, 'repeated_component_slice_is_the_unconstrained_entries_of_the_component_in_node_order')):
+        for k in range(cfg.dim):
+            r = View(dm.slice_unknowns_with_dof_indices(Wu, (slice(None), k)))
+            fk = [orc.free[n * cfg.dim + k] for n in range(cfg.nN)]
+            rk, nk = prefix_counts(fk)
+            conds = [i_eq(r.n, nk)]
+            for n in range(cfg.nN):
+                d = n * cfg.dim + k
+                for p in range(n + 1):
+                    for u in range(d + 1):
+                        conds.append(b_implies(b_and(fk[n], i_eq(rk[n], p), i_eq(orc.rank_free[d], u)), v_eq(r.at(p), Wuv[u])))
+            G(gname, conds)
+    d2u, isUn, isBc, uI = View(dm.dofToUnknown), View(dm.isUnknown), View(dm.isBc), View(dm.unknownIndices)
+    G('slicing_leaves_the_dof_manager_unchanged',
+      [i_eq(d2u.at(d), ite(orc.free[d], orc.rank_free[d], -1, 'i')) for d in range(nd)] + [i_eq(d2u.n, nd)] +
+      [b_iff(isUn.at(d), orc.free[d]) for d in range(nd)] + [b_iff(isBc.at(d), orc.bc[d]) for d in range(nd)] +
+      [i_eq(uI.n, orc.nfree)] + [b_implies(b_and(orc.free[d], i_eq(orc.rank_free[d], p)), i_eq(uI.at(p), d)) for d in range(nd) for p in range(d + 1)])
 
 
 def coo_oracle(cfg, orc):
@@ -1737,7 +2053,8 @@ GOALS_SIZES = ['bc_size_is_the_number_of_constrained_dofs', 'unknown_size_is_the
 GOALS_ROUNDTRIP = ['unknown_values_are_the_unconstrained_entries_in_dof_order', 'bc_values_are_the_constrained_entries_in_dof_order',
                    'split_then_recombine_returns_the_field', 'recombine_then_split_returns_the_unknown_values', 'recombine_then_split_returns_the_bc_values',
                    'created_field_holds_unknown_p_at_the_pth_unconstrained_dof', 'created_field_default_bc_value_is_zero']
-GOALS_SLICE = ['component_slice_is_the_unconstrained_entries_of_the_component_in_node_order']
+GOALS_SLICE = ['component_slice_is_the_unconstrained_entries_of_the_component_in_node_order',
+               'repeated_component_slice_is_the_unconstrained_entries_of_the_component_in_node_order', 'slicing_leaves_the_dof_manager_unchanged']
 GOALS_COO = ['hessian_bc_mask_marks_the_unknown_by_unknown_entries', 'coo_lengths_equal_the_number_of_masked_entries', 'coo_coordinates_are_unknown_ids',
              'coo_pairs_of_an_element_are_pairs_of_its_unknowns', 'coo_pairs_cover_every_unknown_by_unknown_entry_of_each_element',
              'coo_pairs_address_no_entry_of_an_element_twice', 'coo_pair_t_belongs_to_masked_entry_t_up_to_one_global_transposition']
@@ -1801,7 +2118,8 @@ def o3(h):
 @obligation(P, 'O4.component_slice', cap=300)
 def o4(h):
     """slice_unknowns_with_dof_indices(Wu, (slice(None), k)) is the vector of the unconstrained entries of component k in node
-    order, for every component k, all masks, symbolic unknown vector"""
+    order, for every component k, all masks, symbolic unknown vector — also when it is called again after calls for the same and
+    the other components (two-round call history), and the calls leave dofToUnknown / isBc / isUnknown / unknownIndices unchanged"""
     cs = cfgs(h.thorough())
     _meta(h, cs, 'O4: every component k of every configuration; Wu free reals')
     for c in cs:
